@@ -59,7 +59,7 @@ def setup(tier):
 
 def budget(tier):
     if tier == "quick":
-        return {"examples": 2500, "shards": 1}
+        return {"examples": 2000, "shards": 1}
     return {"examples": 30000, "shards": 16}
 
 
@@ -99,6 +99,11 @@ def _tree(kind, depth):
     ]
     if kind == "unit":
         ops.append(st.builds(lambda p, a: ["p", p, a], st.sampled_from(PFX10), sub))
+        # dimensionless units that still carry a prefix ((k*x)/x, k*One) and their powers
+        ops.append(st.builds(lambda p, a, n: ["^", ["/", ["p", p, a], a], n], st.sampled_from(PREFIX_NAMES), _leaf(kind), EXPS))
+        ops.append(st.builds(lambda p, n: ["^", ["p", p, ["one"]], n], st.sampled_from(PREFIX_NAMES), EXPS))
+        # a prefixed factor (of either prefix base) multiplied in and divided out again
+        ops.append(st.builds(lambda a, p, n: ["/", ["*", a, ["p", p, ["u", n]]], ["p", p, ["u", n]]], sub, st.sampled_from(PREFIX_NAMES), st.sampled_from(UNIT_NAMES)))
     return st.one_of(ops)
 
 
